@@ -4,8 +4,13 @@
 (*                                                                                              *)
 (* C01 alphabet (driver c01):                                                                   *)
 (*   Write   one per WritePacket call: ok (accepted), cls/cut (input class of the packet and of *)
-(*           the chunking that hits it - only used to name the failing input), base (type code  *)
-(*           without flag bits), len (body length), n (byte count WritePacket returned)         *)
+(*           the chunking that hits it - only used to name the failing input; cut is            *)
+(*           <where the reads are cut>[@<transport>]: "msg+.." = the peer's message partition   *)
+(*           of a message transport, "writer-msgs" = the messages are the real writer's own     *)
+(*           Write calls, transport = ws-c2s | ws-s2c (WebSocket wrappers, [-w] writer direct) | *)
+(*           quic | kcp (loopback connections of the real adapters), none = chunk-controlled     *)
+(*           reader; cls ends in ":rate" when WritePacket was given a rate limit), base (type   *)
+(*           code without flag bits), len (body length), n (byte count WritePacket returned)    *)
 (*   Packet  one per successful ReadPacket: base, len, eq (body identical - compared in Go),     *)
 (*           consumed (byte count ReadPacket returned)                                          *)
 (*   Rejected ReadPacket returned an error for a packet whose type carries a flag the caller     *)
@@ -27,11 +32,14 @@
 (*                                                                                              *)
 (* C05 alphabet (driver c05):                                                                   *)
 (*   Case      cls = hostile input class                                                        *)
-(*   Read      outcome of ReadPacket on the hostile bytes: "Packet" | "Error"                   *)
+(*   Read      outcome of ReadPacket on the hostile bytes: "Packet" | "Error" (at the end of a  *)
+(*             stream also of ReadExact / ReadAvailable: "Data" | "Error")                      *)
 (*   Dispatch  outcome of SessionManager.HandlePacket on a fresh connection: "Reply" | "Error"  *)
 (*   both with panicked, timedOut, allocKiB (runtime.MemStats.TotalAlloc delta of the call);    *)
 (*   Read also with bodyKiB = size of the body of the returned packet (0 if none)               *)
-(*   Flood     n copies of one small frame on one connection, read and dispatched in a loop:    *)
+(*   Flood     n copies of one small frame, read and dispatched in a loop - all on one          *)
+(*             connection (cls flood:...) or each on a connection of its own that is accepted,  *)
+(*             served and closed (cls flood-conns:...); live = heap in use + goroutine stacks:  *)
 (*             panicked, timedOut, replies (dispatches that did not refuse), growKiB = live     *)
 (*             heap after the second half of the flood minus live heap after the first half     *)
 (*             (both after closing nothing, two GCs) - memory RETAINED per refused packet       *)
@@ -107,7 +115,10 @@ TrEof == /\ Is("Eof")
          /\ ended' = TRUE /\ l' = l + 1 /\ UNCHANGED <<written, nr, np, nh, cls>>
 
 (* ------------------------------------ C05 ------------------------------------------------- *)
-TrCase == /\ Is("Case") /\ cls' = Ev.cls /\ l' = l + 1 /\ UNCHANGED <<viol, written, nr, np, nh, ended>>
+\* every case of a trace must be followed by its report (Read / Flood) before the next case begins
+TrCase == /\ Is("Case") /\ cls' = Ev.cls /\ l' = l + 1 /\ ended' = FALSE
+          /\ Add(IF cls # "?" /\ ~ended THEN {V("Incomplete", cls)} ELSE {})
+          /\ UNCHANGED <<written, nr, np, nh>>
 
 CallX(stage, allowed, k, more) ==
   LET d == cls \o ":" \o stage IN
@@ -117,7 +128,7 @@ CallX(stage, allowed, k, more) ==
    \cup (IF ~Ev.panicked /\ ~Ev.timedOut /\ Ev.outcome \notin allowed THEN {V("Outcome", d)} ELSE {}))
 
 TooLarge   == IF Ev.outcome = "Packet" /\ Ev.bodyKiB > MaxBodyKiB THEN {V("BodyTooLarge", cls \o ":read")} ELSE {}
-TrRead     == Is("Read")     /\ CallX("read", {"Packet", "Error"}, KRead, TooLarge)    /\ l' = l + 1 /\ ended' = TRUE /\ UNCHANGED <<written, nr, np, nh, cls>>
+TrRead     == Is("Read")     /\ CallX("read", {"Packet", "Error", "Data"}, KRead, TooLarge)    /\ l' = l + 1 /\ ended' = TRUE /\ UNCHANGED <<written, nr, np, nh, cls>>
 Call(stage, allowed, k) == CallX(stage, allowed, k, {})
 TrDispatch == Is("Dispatch") /\ Call("dispatch", {"Reply", "Error"}, KDispatch) /\ l' = l + 1 /\ UNCHANGED <<written, nr, np, nh, ended, cls>>
 
